@@ -8,6 +8,7 @@ import (
 	"fmt"
 	"io"
 	"log"
+	"runtime"
 	"sort"
 	"strings"
 	"time"
@@ -51,15 +52,16 @@ type Scenario struct {
 	Mode       string     `json:"mode"`    // par | max1 | max2 | max3 | serial
 	Cancel     bool       `json:"cancel,omitempty"`
 	Buffer     bool       `json:"buffer,omitempty"`
-	BigOutput  bool       `json:"big_output,omitempty"`  // every task attempt writes more than 64 KiB
-	Shared     []int      `json:"shared,omitempty"`      // second graph run concurrently, made of these (shared) tasks, no edges
-	SharedMode string     `json:"shared_mode,omitempty"` // mode of the second graph (par | serial)
-	Shared2    bool       `json:"shared2,omitempty"`     // the second graph is made of the second Task objects (the ones add2 hands to the first graph)
-	Rerun      bool       `json:"rerun,omitempty"`       // call Run a second time on the same graph
-	SortOnly   bool       `json:"sort_only,omitempty"`   // the history (with its DepthFirstSort calls) is everything: no final Run
-	History    bool       `json:"history,omitempty"`     // construction-history scenario (C16a): edges are whatever the history declares
-	Canon      bool       `json:"canon,omitempty"`       // the graph is the representative of its isomorphism class
-	Light      int        `json:"light,omitempty"`       // larger graph: 1 = explored with at most one deviation in total, 2 = default schedule and all completion orders only
+	BigOutput  bool       `json:"big_output,omitempty"`    // every task attempt writes more than 64 KiB
+	Shared     []int      `json:"shared,omitempty"`        // second graph run concurrently, made of these (shared) tasks, no edges
+	SharedMode string     `json:"shared_mode,omitempty"`   // mode of the second graph (par | serial)
+	Shared2    bool       `json:"shared2,omitempty"`       // the second graph is made of the second Task objects (the ones add2 hands to the first graph)
+	Rerun      bool       `json:"rerun,omitempty"`         // call Run a second time on the same graph
+	Literal    bool       `json:"literal_tasks,omitempty"` // tasks are struct literals &dag.Task{ID, Fn} instead of dag.NewTask results
+	SortOnly   bool       `json:"sort_only,omitempty"`     // the history (with its DepthFirstSort calls) is everything: no final Run
+	History    bool       `json:"history,omitempty"`       // construction-history scenario (C16a): edges are whatever the history declares
+	Canon      bool       `json:"canon,omitempty"`         // the graph is the representative of its isomorphism class
+	Light      int        `json:"light,omitempty"`         // larger graph: 1 = explored with at most one deviation in total, 2 = default schedule and all completion orders only
 }
 
 func tid(i int) string { return string(rune('a' + i)) }
@@ -100,6 +102,9 @@ func (sc *Scenario) String() string {
 	}
 	if sc.SortOnly {
 		s += " (no Run)"
+	}
+	if sc.Literal {
+		s += " (Task literals)"
 	}
 	return s
 }
@@ -293,6 +298,7 @@ type run struct {
 	sentinel     []error
 	multi        bool  // Run is called more than once
 	panicked     bool  // a task function panicked on purpose (script "panic")
+	goexited     bool  // a task function ended its goroutine with runtime.Goexit (script "goexit")
 	failedBefore bool  // a task had failed or a cancellation had been requested when the current Run started
 	before       []int // attempts per task when the current Run started
 
@@ -550,6 +556,23 @@ func (r *run) body(i int, ctx context.Context) error {
 		r.panicked = true
 		panic(taskPanic{tid(i)})
 	}
+	if rec.result == "goexit" {
+		// the task ends its goroutine with runtime.Goexit (t.FailNow inside a task ...): it never returns at all
+		rec.exited = true
+		r.running[i]--
+		r.runningG[g]--
+		r.order = append(r.order, "!"+tid(i))
+		verifrt.Emit("exit", tid(i), rec.attempt)
+		rec.exitVC = verifrt.CurrentVC()
+		r.failed = true
+		r.taskFailed = true
+		r.goexited = true
+		runtime.Goexit()
+	}
+	wrappedSkip := rec.result == "wskip" // ErrorSkipParents wrapped with context (errors.Is still holds)
+	if wrappedSkip {
+		rec.result = "skip"
+	}
 	ctxErr := rec.result == "cerr" // an error of the task's own that wraps context.DeadlineExceeded while the run's context is live
 	if ctxErr {
 		rec.result = "err"
@@ -567,6 +590,9 @@ func (r *run) body(i int, ctx context.Context) error {
 	case "ok":
 		return nil
 	case "skip":
+		if wrappedSkip {
+			return fmt.Errorf("artifact of %s is up to date: %w", tid(i), dag.ErrorSkipParents)
+		}
 		return dag.ErrorSkipParents
 	default:
 		if g == 0 && rec.attempt >= r.m.retries[i] {
@@ -605,6 +631,9 @@ func (r *run) main() {
 		r.sentinel[i] = fmt.Errorf("task-%s-failed", tid(i))
 		r.tasks[i] = dag.NewTask(tid(i), r.taskFn(i, 0))
 		r.tasks2[i] = dag.NewTask(tid(i), r.taskFn(i, 0))
+		if sc.Literal {
+			r.tasks[i] = &dag.Task{ID: dag.ID(tid(i)), Fn: r.taskFn(i, 0)}
+		}
 	}
 	g := dag.NewGraph("g")
 	g.TickerDuration = time.Millisecond
@@ -696,7 +725,9 @@ func (r *run) main() {
 			g.TaskRetries(r.tasks[c.A], c.B)
 		case "max":
 			g.SetMaxParallel(c.A)
-			r.capacity = c.A
+			if sc.Mode != "serial" { // a serial graph stays serial whatever limit is set later
+				r.capacity = c.A
+			}
 		case "sort":
 			r.m = declared(&Scenario{N: sc.N, Hist: sc.Hist[:idx]})
 			r.checkSort(g)
@@ -961,6 +992,10 @@ func (r *run) final(res *verifrt.Result) {
 			return
 		case res.Status == verifrt.StatusDiverged:
 			return
+		case (res.Status == verifrt.StatusDeadlock || res.Status == verifrt.StatusLivelock) && r.goexited:
+			// a task that never returns is outside "every started task eventually returns": that Run waits for it
+			// for ever is the expected outcome; what was entered before was judged at enter time
+			return
 		case (res.Status == verifrt.StatusDeadlock || res.Status == verifrt.StatusLivelock) && allReturned:
 			// Run returned; what is left over is a goroutine of the library parked forever on its
 			// completion channel (a leak, which no listed property speaks about).  Judge the run normally.
@@ -1014,11 +1049,11 @@ func (r *run) final(res *verifrt.Result) {
 				}
 			}
 			if !r.multi {
-				if len(as) > m.retries[t]+1 {
+				if len(as)-1 > m.retries[t] {
 					r.fail("C13", "task %s ran %d times with %d retries", tid(t), len(as), m.retries[t])
 				}
 				last := as[len(as)-1]
-				if last.result == "err" && len(as) < m.retries[t]+1 {
+				if last.result == "err" && len(as)-1 < m.retries[t] {
 					r.fail("C13", "task %s failed and was attempted only %d times with %d retries configured", tid(t), len(as), m.retries[t])
 				}
 			}
@@ -1156,6 +1191,7 @@ func (r *run) final(res *verifrt.Result) {
 				}
 				if !above {
 					r.fail("C16", "Run returned nil but task %s never ran and no ErrorSkipParents explains it", tid(t))
+					r.fail("C14", "Run returned nil although task %s neither ran successfully nor was skipped through ErrorSkipParents", tid(t))
 				}
 			}
 		}
